@@ -530,6 +530,9 @@ def obligations(tier):
                          lambda: c16_native.run((0, 12345) if tier == "quick" else (0, 1, 7, 12345, 2**31 - 1)),
                          dict(seeds="2 (5 thorough)", kinds="int / two identically seeded generators"),
                          "each entry point twice per seed and kind, global generator reseeded and advanced in between; plus 13 functions without random choices", pid=PID))
+    # ---- the class wrappers hand random_state (and the initialisation / SVD choice that decide whether it is used) to the seeded functions
+    from . import wrappers as _W
+    obs.extend(_W.obligations(PID, only=("random_state", "init", "svd", "n_samples")))
     return obs
 
 
